@@ -2,6 +2,8 @@ package symex
 
 import (
 	"fmt"
+
+	"github.com/chewxy/math32"
 	"go/types"
 	"io"
 	"math"
@@ -330,15 +332,82 @@ func (c *Ctx) registerStd(tab map[string]intrinsicFn) {
 }
 
 var mathFns = map[string]func(float64) float64{
-	"Acos": math.Acos, "Acosh": math.Acosh, "Asin": math.Asin, "Asinh": math.Asinh, "Atan": math.Atan, "Atanh": math.Atanh,
-	"Cos": math.Cos, "Cosh": math.Cosh, "Sin": math.Sin, "Sinh": math.Sinh, "Tan": math.Tan, "Tanh": math.Tanh,
-	"Exp": math.Exp, "Log": math.Log, "Sqrt": math.Sqrt,
+	"acos": math.Acos, "acosh": math.Acosh, "asin": math.Asin, "asinh": math.Asinh, "atan": math.Atan, "atanh": math.Atanh,
+	"cos": math.Cos, "cosh": math.Cosh, "sin": math.Sin, "sinh": math.Sinh, "tan": math.Tan, "tanh": math.Tanh,
+	"exp": math.Exp, "log": math.Log, "sqrt": math.Sqrt,
 }
 
-// mathIntrinsic: one-argument math functions become uninterpreted functions
-// (named after the routine); constants are evaluated with Go's own math.
+var math32Fns = map[string]func(float32) float32{
+	"m32.acos": math32.Acos, "m32.acosh": math32.Acosh, "m32.asin": math32.Asin, "m32.asinh": math32.Asinh, "m32.atan": math32.Atan, "m32.atanh": math32.Atanh,
+	"m32.cos": math32.Cos, "m32.cosh": math32.Cosh, "m32.sin": math32.Sin, "m32.sinh": math32.Sinh, "m32.tan": math32.Tan, "m32.tanh": math32.Tanh,
+	"m32.exp": math32.Exp, "m32.log": math32.Log, "m32.sqrt": math32.Sqrt,
+}
+
+// applyMath: constants are evaluated with the very routine the native code calls;
+// symbolic arguments become an uninterpreted function named after the routine,
+// with the IEEE special-value facts about exp/tanh added to the path condition.
+func (c *Ctx) applyMath(name string, x *smt.Term) *smt.Term {
+	st := c.St
+	if x.IsConst() {
+		if f, ok := mathFns[name]; ok && x.Sort.K == smt.KFP64 {
+			return st.F64C(f(x.F64Val()))
+		}
+		if f, ok := math32Fns[name]; ok && x.Sort.K == smt.KFP32 {
+			return st.F32C(f(x.F32Val()))
+		}
+	}
+	r := st.App(c.ufName(name, x.Sort), x.Sort, x)
+	if !x.Sort.IsFP() || c.spec > 0 {
+		return r
+	}
+	if c.axiomDone == nil {
+		c.axiomDone = map[int64]bool{}
+	}
+	if c.axiomDone[r.ID] {
+		return r
+	}
+	c.axiomDone[r.ID] = true
+	zero := st.Zero(x.Sort)
+	one := c.one(x.Sort)
+	var pinf, ninf *smt.Term
+	if x.Sort.K == smt.KFP32 {
+		pinf, ninf = st.F32C(float32(math.Inf(1))), st.F32C(float32(math.Inf(-1)))
+	} else {
+		pinf, ninf = st.F64C(math.Inf(1)), st.F64C(math.Inf(-1))
+	}
+	base := strings.TrimPrefix(name, "m32.")
+	var ax []*smt.Term
+	switch base {
+	case "exp":
+		ax = []*smt.Term{
+			st.Eq(st.FPIsNaN(x), st.FPIsNaN(r)),
+			st.Implies(st.Eq(x, pinf), st.Eq(r, pinf)),
+			st.Implies(st.Eq(x, ninf), st.Eq(r, zero)),
+			st.Implies(st.Not(st.FPIsNaN(x)), st.FPLe(zero, r)),
+			st.Implies(st.FPLe(x, zero), st.FPLe(r, one)),
+			st.Implies(st.FPLe(zero, x), st.FPLe(one, r)),
+		}
+		c.E.Assumptions["exp/math32.Exp: NaN iff NaN, exp(+Inf)=+Inf, exp(-Inf)=+0, exp(x)>=0, x<=0 => exp(x)<=1, x>=0 => exp(x)>=1 (assumed of Go's routines)"] = true
+	case "tanh":
+		ax = []*smt.Term{
+			st.Eq(st.FPIsNaN(x), st.FPIsNaN(r)),
+			st.Implies(st.Eq(x, pinf), st.Eq(r, one)),
+			st.Implies(st.Eq(x, ninf), st.Eq(r, st.FPNeg(one))),
+			st.Implies(st.Not(st.FPIsNaN(x)), st.And(st.FPLe(st.FPNeg(one), r), st.FPLe(r, one))),
+			st.Implies(st.FPLe(zero, x), st.FPLe(zero, r)),
+			st.Implies(st.FPLe(x, zero), st.FPLe(r, zero)),
+		}
+		c.E.Assumptions["tanh/math32.Tanh: NaN iff NaN, tanh(+-Inf)=+-1, |tanh(x)|<=1, sign preserved (assumed of Go's routines)"] = true
+	}
+	for _, a := range ax {
+		c.assume(a)
+	}
+	return r
+}
+
+// mathIntrinsic: one-argument math / math32 functions.
 func mathIntrinsic(c *Ctx, fn *ssa.Function, a []Value) Value {
-	name := fn.Name()
+	name := strings.ToLower(fn.Name())
 	if len(a) != 1 {
 		panic(c.abort("unmodelled math function %s", fn))
 	}
@@ -350,12 +419,10 @@ func mathIntrinsic(c *Ctx, fn *ssa.Function, a []Value) Value {
 	if strings.Contains(fn.String(), "math32") {
 		name = "m32." + name
 	}
-	if x.IsConst() && x.Sort.K == smt.KFP64 {
-		if f, ok := mathFns[name]; ok {
-			return c.St.F64C(f(x.F64Val()))
-		}
+	if c.Ring {
+		return c.St.App(c.ufName(strings.TrimPrefix(name, "m32."), x.Sort), x.Sort, x)
 	}
-	return c.St.App(c.ufName(strings.ToLower(name), x.Sort), x.Sort, x)
+	return c.applyMath(name, x)
 }
 
 // ---- zzverif runtime
@@ -693,41 +760,50 @@ func (c *Ctx) registerZZ(tab map[string]intrinsicFn) {
 		return c.St.BoolC(c.errorsIs(a[1], a[2], 0))
 	}
 	tab[F+"Register"] = func(c *Ctx, fn *ssa.Function, a []Value) Value { return nil }
-	tab[M+"AssertTensor"] = func(c *Ctx, fn *ssa.Function, a []Value) Value {
-		label := c.str(a[1])
-		got := c.asShadow(a[2])
-		wantShape := c.intsOf(a[3], "AssertTensor shape")
-		wv, ok := a[4].(IfaceV)
-		if !ok || wv.T == nil {
-			panic(c.abort("AssertTensor: want is nil"))
-		}
-		ws := wv.V.(SliceV)
-		eb := wv.T.Underlying().(*types.Slice).Elem().Underlying().(*types.Basic)
-		wd, _ := dtypeOfBasic(eb)
-		if got == nil {
-			c.assertCond(label, c.St.False(), "result tensor is nil")
+	assertTensor := func(numeric bool) intrinsicFn {
+		return func(c *Ctx, fn *ssa.Function, a []Value) Value {
+			label := c.str(a[1])
+			got := c.asShadow(a[2])
+			wantShape := c.intsOf(a[3], "AssertTensor shape")
+			wv, ok := a[4].(IfaceV)
+			if !ok || wv.T == nil {
+				panic(c.abort("AssertTensor: want is nil"))
+			}
+			ws := wv.V.(SliceV)
+			eb := wv.T.Underlying().(*types.Slice).Elem().Underlying().(*types.Basic)
+			wd, _ := dtypeOfBasic(eb)
+			if got == nil {
+				c.assertCond(label, c.St.False(), "result tensor is nil")
+				return nil
+			}
+			if !sameInts(got.ids.Shape(), wantShape) {
+				c.assertCond(label, c.St.False(), fmt.Sprintf("shape %v, want %v", got.ids.Shape(), wantShape))
+				return nil
+			}
+			if got.dt != wd {
+				c.assertCond(label, c.St.False(), fmt.Sprintf("dtype %v, want %v", got.dt, wd))
+				return nil
+			}
+			gt := c.logicalTerms(got)
+			if len(gt) != ws.Len {
+				c.assertCond(label, c.St.False(), fmt.Sprintf("%d elements, want %d", len(gt), ws.Len))
+				return nil
+			}
+			cond := c.St.True()
+			for i, g := range gt {
+				w := ws.B.Load(c, ws.Off+i).(*smt.Term)
+				if numeric && g.Sort.IsFP() && g.Sort == w.Sort {
+					cond = c.St.And(cond, c.St.Or(c.St.FPEq(g, w), c.St.And(c.St.FPIsNaN(g), c.St.FPIsNaN(w))))
+				} else {
+					cond = c.St.And(cond, c.elemEq(g, w))
+				}
+			}
+			c.assertCond(label, cond, "")
 			return nil
 		}
-		if !sameInts(got.ids.Shape(), wantShape) {
-			c.assertCond(label, c.St.False(), fmt.Sprintf("shape %v, want %v", got.ids.Shape(), wantShape))
-			return nil
-		}
-		if got.dt != wd {
-			c.assertCond(label, c.St.False(), fmt.Sprintf("dtype %v, want %v", got.dt, wd))
-			return nil
-		}
-		gt := c.logicalTerms(got)
-		if len(gt) != ws.Len {
-			c.assertCond(label, c.St.False(), fmt.Sprintf("%d elements, want %d", len(gt), ws.Len))
-			return nil
-		}
-		cond := c.St.True()
-		for i, g := range gt {
-			cond = c.St.And(cond, c.elemEq(g, ws.B.Load(c, ws.Off+i).(*smt.Term)))
-		}
-		c.assertCond(label, cond, "")
-		return nil
 	}
+	tab[M+"AssertTensor"] = assertTensor(false)
+	tab[M+"AssertTensorNum"] = assertTensor(true)
 	tab[M+"AssertSameTensor"] = func(c *Ctx, fn *ssa.Function, a []Value) Value {
 		label := c.str(a[1])
 		got, want := c.asShadow(a[2]), c.asShadow(a[3])
